@@ -137,6 +137,10 @@ package memkv
 
 // (that inRange compares the element's key with the end bound is not stated: the key comes out of the
 // third-party list as an interface value)
+//@ func @github.com/huandu/skiplist.(*Element).Key() (k)
+//@   assumed
+//@   pure
+
 // the end bound is exclusive in the direction of travel
 //@ func (*iter).inRange(elem) (result)
 //@   props C11 C12
